@@ -516,7 +516,23 @@ func ClassifyClient(tr *CTrace) []Issue {
 		}
 	}
 	// (b) truthful establishment
-	claims := tr.Established || tr.State == "established" || (tr.Returned && tr.Err == "" && tr.ResultState == "established") || tr.Published
+	// What the client reports *now* (its live state, a published channel) is compared with the server's last word. What
+	// EstablishSession *returned* was true or false at the moment it returned: the scripted server may already have
+	// sent its next symbols when the return is noticed, so that claim only needs an established session among the
+	// server's envelopes (the returned session then is that envelope: id and nodes are compared below).
+	liveClaim := tr.Established || tr.State == "established" || tr.Published
+	returnedClaim := tr.Returned && tr.Err == "" && tr.ResultState == "established"
+	var estSes map[string]interface{}
+	for _, e := range tr.Events {
+		if e.T == "s-send" && e.Env != nil && e.Env["state"] == "established" && estSes == nil {
+			estSes = e.Env
+		}
+	}
+	if !liveClaim && returnedClaim && estSes != nil && (lastSes == nil || lastSes["state"] != "established") {
+		// truthful when it returned; the session was then ended or broken by what the server sent next
+		lastSes = estSes
+	}
+	claims := liveClaim || returnedClaim
 	if claims {
 		if lastSes == nil || lastSes["state"] != "established" {
 			add("C08/established-untruthfully", "client reports an established channel (Established()=%v State=%s result=%s published=%v) but the server's last session envelope was %v (script %v)", tr.Established, tr.State, tr.ResultState, tr.Published, lastSes, tr.Script)
